@@ -531,7 +531,10 @@ func hashBNodesPerSplit(statements []*Statement, decomp bool, h hash.Hash, zero 
 		return hash, parts, ok
 	}
 
-	hash = &table{hashOf: make(map[string][]byte)}
+	hash = &table{
+		hashOf:   make(map[string][]byte),
+		termsFor: make(map[string]map[string]bool),
+	}
 	disjoint = true
 	for _, g := range splits {
 		part, ok := hashBNodes(g, h, zero, nil)
@@ -545,6 +548,14 @@ func hashBNodesPerSplit(statements []*Statement, decomp bool, h hash.Hash, zero 
 		}
 		for k, v := range part.hashOf {
 			hash.hashOf[k] = v
+		}
+		for k, terms := range part.termsFor {
+			if hash.termsFor[k] == nil {
+				hash.termsFor[k] = make(map[string]bool)
+			}
+			for t := range terms {
+				hash.termsFor[k][t] = true
+			}
 		}
 		parts = appendOrdered(parts, part.termsFor)
 	}
